@@ -189,7 +189,22 @@ def P_write_paths(c, np):
         c.op('*', 'close', f=0)
 
 
-PROGRAMS = [P_read_paths, P_write_paths, P_enddef, P_enddef_coll_hdr, P_numrecs, P_fill, P_redef_move, P_redef_move_multi, P_redef_move_coll, P_blocking, P_nonblocking, P_datamode_header, P_open_read, P_varn_vard]
+def P_redef_from_indep(c, np):
+    """define mode entered directly from independent data mode: the record count raised independently is written on the way"""
+    base(c, np); c.op('*', 'enddef', f=0)
+    put_all(c, np, 1, rec=0)
+    c.op('*', 'begin_indep', f=0)
+    c.op(0, 'put', f=0, form='vara', v=1, s=[2, 0], c=[1, 1], coll=0, mem='int', vals=[5])
+    if np > 1: c.op(np - 1, 'put', f=0, form='vara', v=1, s=[3, 1], c=[1, 1], coll=0, mem='int', vals=[6])
+    c.op('*', 'redef', f=0)
+    c.op('*', 'put_att', f=0, v=-1, name='h', xtype='int', n=1, vals=[3])
+    c.op('*', 'enddef', f=0)
+    c.op('*', 'begin_indep', f=0)
+    c.op(0, 'put', f=0, form='vara', v=1, s=[4, 0], c=[1, 1], coll=0, mem='int', vals=[7])
+    c.op('*', 'close', f=0)
+
+
+PROGRAMS = [P_read_paths, P_write_paths, P_redef_from_indep, P_enddef, P_enddef_coll_hdr, P_numrecs, P_fill, P_redef_move, P_redef_move_multi, P_redef_move_coll, P_blocking, P_nonblocking, P_datamode_header, P_open_read, P_varn_vard]
 
 
 def mkcase(prog, np, fault=None, tag=''):
